@@ -110,7 +110,11 @@ fn gen_c14(tier: &str, rng: &mut Rng, emit: &mut dyn FnMut(Op)) {
 
 fn gen_c15(tier: &str, rng: &mut Rng, emit: &mut dyn FnMut(Op)) {
     let thorough = tier == "thorough";
-    let kinds: [&[u8]; 34] = [
+    let kinds: [&[u8]; 48] = [
+        // @cwd arguments combining features: non-UTF-8 AND a trailing '/', blanks, only '/'
+        b"@cwd /opt/bl\xf8t/", b"@cwd \xe9/", b"@cwd /caf\xc3\xa9/", b"@cwd //", b"@cwd /a b/", b"@cwd /opt/bl\xf8t",
+        // file entries named like package metadata files are ordinary files unless @ignore'd
+        b"+DESC", b"+INSTALL", b"+CONTENTS", b"+COMMENT", b"+README", b"+BUILD_INFO", b"share/+DESC", b"+DEINSTALL",
         b"/etc/abs", b"/", b"bin/a/", b"@unexec rm -f %D/%F.bak", b"@exec ln %f %B", b"@unexec %B", b"@exec %D/%F", b"@unexec echo %f",
         b"bin/a", b"bin/b", b"lib/c", b"share/d", b"x", b"@ignore", b"@ignore", b"@ignore",
         b"@cwd /usr/pkg", b"@cwd /opt/", b"@cwd /", b"@cwd rel", b"@cwd /caf\xe9", b"@src /s", b"@cd /c",
@@ -118,7 +122,10 @@ fn gen_c15(tier: &str, rng: &mut Rng, emit: &mut dyn FnMut(Op)) {
         b"@pkgdir share/x", b"@dirrm share/y", b"@comment hello", b"@option preserve", b"@name foo-1.0",
     ];
     let rest: [&[u8]; 6] = [b"@pkgdep a>=1", b"@blddep b-1", b"@pkgcfl c-[0-9]*", b"@display MESSAGE", b"@name bar-2", b"@display OTHER"];
-    let fixed: [&[u8]; 12] = [
+    let fixed: [&[u8]; 15] = [
+        b"@cwd /opt/bl\xf8t/\nbin/foo\n@cwd /x/\nbin/bar\n",
+        b"bin/foo\n+DESC\n+INSTALL\n@ignore\n+CONTENTS\n+README\n",
+        b"@cwd \xff/\n+DESC\n@exec %D/%F\n@unexec %D/%F\n",
         b"@ignore\n+INSTALL\n@unexec rm -f %D/%F.bak\n@exec touch %F\nbin/a\n@unexec rm %F\n",
         b"@cwd /opt/pkg\n/etc/rc.d/foo\nbin/a\n",
         b"/abs\n@cwd rel\n/abs2\n",
